@@ -2,7 +2,7 @@
    Property theorems only: each is closed by [exact] of a lemma proved in
    coq/proofs, pinned by [Check], and followed by [Print Assumptions]. *)
 From FP Require Import Machine SrcConsts Pow10 RoundSpec Rounding Round Out ArithSpec Run.
-From FP Require Import MachineFacts RoundSpecFacts RoundingFacts RoundFacts.
+From FP Require Import MachineFacts RoundSpecFacts RoundingFacts RoundFacts RoundMeaning.
 
 (* Decimal::round and Decimal::checked_round equal the specification [round_spec]
    (the multiple of 10^-n selected by the mode, for negative n as well; failure
@@ -51,6 +51,40 @@ Proof. exact rnd_floor_eq. Qed.
 Check C05_rnd_class_table :
   forall m q r d, 0 < d -> 0 <= r < d -> rnd m (q * d + r) d = rnd_floor m q r d.
 Print Assumptions C05_rnd_class_table.
+
+(* what the specification's eight modes mean, stated on the exact quotient n / d without reference to
+   how rnd is computed (the specification is trusted: these let a reader check it against the
+   documentation of the modes) *)
+Theorem C05_modes_meaning :
+  forall n d, 0 < d ->
+    (rnd RFloor n d * d <= n < (rnd RFloor n d + 1) * d) /\
+    ((rnd RCeiling n d - 1) * d < n <= rnd RCeiling n d * d) /\
+    (Z.abs (rnd RDown n d * d) <= Z.abs n /\ Z.abs (n - rnd RDown n d * d) < d) /\
+    (Z.abs n <= Z.abs (rnd RUp n d * d) /\ Z.abs (n - rnd RUp n d * d) < d) /\
+    (2 * Z.abs (n - rnd RHalfUp n d * d) <= d /\
+     (2 * Z.abs (n - rnd RHalfUp n d * d) = d -> Z.abs n < Z.abs (rnd RHalfUp n d * d))) /\
+    (2 * Z.abs (n - rnd RHalfDown n d * d) <= d /\
+     (2 * Z.abs (n - rnd RHalfDown n d * d) = d -> Z.abs (rnd RHalfDown n d * d) < Z.abs n)) /\
+    (2 * Z.abs (n - rnd RHalfEven n d * d) <= d /\
+     (2 * Z.abs (n - rnd RHalfEven n d * d) = d -> Z.even (rnd RHalfEven n d) = true)) /\
+    (rnd R05Up n d = if Z.rem n d =? 0 then Z.quot n d
+                     else if Z.rem (Z.quot n d) 5 =? 0 then Z.quot n d + Z.sgn n else Z.quot n d).
+Proof.
+  intros n d Hd.
+  refine (conj (floor_meaning n d Hd) (conj (ceiling_meaning n d Hd) (conj (down_meaning n d Hd) (conj (up_meaning n d Hd)
+    (conj (conj (half_modes_nearest RHalfUp n d Hd (or_introl eq_refl)) (half_up_tie n d Hd))
+    (conj (conj (half_modes_nearest RHalfDown n d Hd (or_intror (or_introl eq_refl))) (half_down_tie n d Hd))
+    (conj (conj (half_modes_nearest RHalfEven n d Hd (or_intror (or_intror eq_refl))) (half_even_tie n d Hd))
+          (r05up_meaning n d Hd)))))))).
+Qed.
+Print Assumptions C05_modes_meaning.
+
+Theorem C05_every_mode_adjacent_and_exact :
+  forall m n d, 0 < d -> Z.abs (n - rnd m n d * d) < d /\ (n mod d = 0 -> rnd m n d * d = n).
+Proof. exact rnd_adjacent. Qed.
+Check C05_every_mode_adjacent_and_exact :
+  forall m n d, 0 < d -> Z.abs (n - rnd m n d * d) < d /\ (n mod d = 0 -> rnd m n d * d = n).
+Print Assumptions C05_every_mode_adjacent_and_exact.
 
 (* non-vacuity: a concrete tie, negative, negative n, non-default mode *)
 Example C05_nonvacuous :
